@@ -220,6 +220,203 @@ def evalBatch (e : Expr α) (batch : List (Nat → α)) : List α := batch.map (
 
 end build
 
+/-! ### names and symbols (observable.py:38-57 `name` / `symbol`, 59-63 `__str__` / `__repr__`, 65-68 `__neg__`,
+274-281 and 315-322 the `name=` / `symbol=` arguments of the two constructors)
+
+Names are the keys of `System.observables` / of the dictionaries `System.statistics` returns (C13), the CSV columns and
+attribute names of `ObservableEvaluator` (C17), and the subject of known finding F19 (same-name merge). -/
+section names
+variable {α : Type} [Add α] [Mul α] [Neg α] [Sub α] [Zero α] [One α]
+
+/-- Python's OWN rendering of a scalar operand: `repr(x)` (used for names) and `str(x)` (used for symbols) of a
+`bool` / `int` / `float` / `numpy.float64` with value `c`. The interpreter's, not the library's: a parameter of the
+model (the driver instantiates it for integer-valued scalars: `True`, `-3`, `2.0`, `np.float64(2.0)` / `2.0`). -/
+structure Render (α : Type) where
+  repr : Kind → α → String
+  str : Kind → α → String
+
+/-- `repr(c)` (`nm = true`) or `str(c)` (`nm = false`) of a scalar -/
+def Render.text (R : Render α) (nm : Bool) (k : Kind) (c : α) : String := if nm then R.repr k c else R.str k c
+
+/-- The identity attributes of an observable object: its class name and the class-level defaults `_name = None`,
+`_symbol = None` possibly overwritten through the setters (observable.py:25-26, 45-47, 56-57). -/
+structure Ident where
+  className : String
+  name : Option String
+  symbol : Option String
+  deriving Repr, DecidableEq
+
+/-- `name` property (observable.py:38-43): `self.__class__.__name__` while `_name is None`, else `_name`. -/
+def Ident.getName (i : Ident) : String :=
+  match i.name with
+  | none => i.className
+  | some s => s
+
+/-- `symbol` property (observable.py:49-54): the class name while `_symbol is None`. -/
+def Ident.getSymbol (i : Ident) : String :=
+  match i.symbol with
+  | none => i.className
+  | some s => s
+
+/-- `obj.name = new_name` (observable.py:45-47); `None` re-installs the class-name default. -/
+def Ident.setName (i : Ident) (s : Option String) : Ident := { i with name := s }
+/-- `obj.symbol = new_symbol` (observable.py:56-57) -/
+def Ident.setSymbol (i : Ident) (s : Option String) : Ident := { i with symbol := s }
+
+/-- an observable object together with what its `name` and `symbol` properties return -/
+structure NObs (α : Type) where
+  o : Obs α
+  name : String
+  symbol : String
+
+/-- a Python operand value with its identity strings -/
+inductive NArg (α : Type) where
+  | scal (k : Kind) (c : α)
+  | obs (n : NObs α)
+
+/-- the operand without the strings (what `build` produces) -/
+def NArg.arg : NArg α → Arg α
+  | .scal k c => .scal k c
+  | .obs n => .obs n.o
+
+/-- `repr(x)` (`nm = true`; `ObservableBase.__repr__` returns `self.name`) / `str(x)` (`nm = false`; `__str__`
+returns `self.symbol`) of an operand (observable.py:59-63). -/
+def NArg.text (R : Render α) (nm : Bool) : NArg α → String
+  | .scal k c => R.text nm k c
+  | .obs n => if nm then n.name else n.symbol
+
+/-- `"(" + f(left) + op + f(right) + ")"` unless the caller gave the string (observable.py:274-281, 315-322) -/
+def label (R : Render α) (nm : Bool) (op : String) (l r : NArg α) (given : Option String) : String :=
+  match given with
+  | some s => s
+  | none => "(" ++ l.text R nm ++ op ++ r.text R nm ++ ")"
+
+/-- `SumObservable.__init__(o1, o2, name=None, symbol=None)` (observable.py:265-281) -/
+def mkSumN (R : Render α) (o1 o2 : NArg α) (name symbol : Option String) : Except PyErr (NObs α) :=
+  if !argOk o1.arg then .error .TypeError
+  else if !argOk o2.arg then .error .TypeError
+  else .ok ⟨.sum o1.arg o2.arg, label R true " + " o1 o2 name, label R false " + " o1 o2 symbol⟩
+
+/-- `ProdObservable.__init__(o1, o2, name=None, symbol=None)` (observable.py:299-322): the strings are built from
+`self.left` (the scalar) and `self.right` (the observable), whichever order the caller used. -/
+def mkProdN (R : Render α) (o1 o2 : NArg α) (name symbol : Option String) : Except PyErr (NObs α) :=
+  if !argOk o1.arg then .error .TypeError
+  else if !argOk o2.arg then .error .TypeError
+  else
+    match o1, o2 with
+    | .scal k c, .obs n =>
+      .ok ⟨.prod k c n.o, label R true " * " (.scal k c) (.obs n) name, label R false " * " (.scal k c) (.obs n) symbol⟩
+    | .obs n, .scal k c =>
+      .ok ⟨.prod k c n.o, label R true " * " (.scal k c) (.obs n) name, label R false " * " (.scal k c) (.obs n) symbol⟩
+    | _, _ => .error .ValueError
+
+/-- `__neg__` (observable.py:65-68): `ProdObservable(self, -1, name="-" + self.name, symbol="-" + self.symbol)` -/
+def NObs.neg (R : Render α) (self : NObs α) : Except PyErr (NObs α) :=
+  mkProdN R (.obs self) (.scal .int (-1)) (some ("-" ++ self.name)) (some ("-" ++ self.symbol))
+
+/-- lift a constructor result to an operand value -/
+def liftN (r : Except PyErr (NObs α)) : Except PyErr (NArg α) :=
+  match r with
+  | .ok n => .ok (.obs n)
+  | .error e => .error e
+
+/-- Python unary minus on an operand carrying its strings (cf. `pyNeg`) -/
+def pyNegN (R : Render α) : NArg α → Except PyErr (NArg α)
+  | .scal k c => if k.numeric then .ok (.scal k.negK (-c)) else .error .TypeError
+  | .obs n => liftN (n.neg R)
+
+/-- Python `a + b` (`__add__` / `__radd__`, cf. `pyAdd`) -/
+def pyAddN (R : Render α) : NArg α → NArg α → Except PyErr (NArg α)
+  | .obs a, b => liftN (mkSumN R (.obs a) b none none)
+  | .scal k c, .obs b => liftN (mkSumN R (.scal k.reflected c) (.obs b) none none)
+  | .scal k c, .scal k' c' =>
+    if k.numeric && k'.numeric then .ok (.scal (k.arith k') (c + c')) else .error .TypeError
+
+/-- Python `a - b` (`__sub__`: `SumObservable(self, -other)`; `__rsub__`: `SumObservable(other, -self)`, cf. `pySub`) -/
+def pySubN (R : Render α) : NArg α → NArg α → Except PyErr (NArg α)
+  | .obs a, b =>
+    match pyNegN R b with
+    | .error e => .error e
+    | .ok nb => liftN (mkSumN R (.obs a) nb none none)
+  | .scal k c, .obs b =>
+    match b.neg R with
+    | .error e => .error e
+    | .ok nb => liftN (mkSumN R (.scal k.reflected c) (.obs nb) none none)
+  | .scal k c, .scal k' c' =>
+    if k.numeric && k'.numeric then .ok (.scal (k.arith k') (c - c')) else .error .TypeError
+
+/-- Python `a * b` (`__mul__` / `__rmul__`, cf. `pyMul`) -/
+def pyMulN (R : Render α) : NArg α → NArg α → Except PyErr (NArg α)
+  | .obs a, b => liftN (mkProdN R (.obs a) b none none)
+  | .scal k c, .obs b => liftN (mkProdN R (.scal k.reflected c) (.obs b) none none)
+  | .scal k c, .scal k' c' =>
+    if k.numeric && k'.numeric then .ok (.scal (k.arith k') (c * c')) else .error .TypeError
+
+/-- `build` with the identity strings: leaf `i` is an object whose attributes are `ids i`. -/
+def buildN (R : Render α) (ids : Nat → Ident) : Expr α → Except PyErr (NArg α)
+  | .leaf i => .ok (.obs ⟨.leaf i, (ids i).getName, (ids i).getSymbol⟩)
+  | .const k c => .ok (.scal k c)
+  | .neg e =>
+    match buildN R ids e with
+    | .error err => .error err
+    | .ok v => pyNegN R v
+  | .add a b =>
+    match buildN R ids a with
+    | .error err => .error err
+    | .ok va => match buildN R ids b with
+      | .error err => .error err
+      | .ok vb => pyAddN R va vb
+  | .sub a b =>
+    match buildN R ids a with
+    | .error err => .error err
+    | .ok va => match buildN R ids b with
+      | .error err => .error err
+      | .ok vb => pySubN R va vb
+  | .mul a b =>
+    match buildN R ids a with
+    | .error err => .error err
+    | .ok va => match buildN R ids b with
+      | .error err => .error err
+      | .ok vb => pyMulN R va vb
+
+/-- does the expression denote a scalar (no leaf in it)? -/
+def Expr.isScalar : Expr α → Bool
+  | .leaf _ => false
+  | .const _ _ => true
+  | .neg e => e.isScalar
+  | .add a b => a.isScalar && b.isScalar
+  | .sub a b => a.isScalar && b.isScalar
+  | .mul a b => a.isScalar && b.isScalar
+
+/-- Python's rendering of the number a scalar sub-expression evaluates to (the interpreter folds `2 + 3` before the
+library sees it); `""` if the sub-expression is refused. -/
+def scalText (R : Render α) (nm : Bool) (e : Expr α) : String :=
+  match build e with
+  | .ok (.scal k c) => R.text nm k c
+  | _ => ""
+
+/-- THE SPECIFICATION of names (`nm = true`) and symbols (`nm = false`) as a function of the expression tree:
+a scalar sub-expression reads as Python prints its value; a leaf reads as its `name` / `symbol`; `-e` reads `-E`;
+`a + b` reads `(A + B)`; `a - b` reads `(A + -B)` (the negated number when `b` is a scalar); a product reads
+`(c * E)` with the scalar first whichever side it was written on. -/
+def exprText (R : Render α) (ids : Nat → Ident) (nm : Bool) : Expr α → String
+  | .leaf i => if nm then (ids i).getName else (ids i).getSymbol
+  | .const k c => R.text nm k c
+  | .neg e => if e.isScalar then scalText R nm (.neg e) else "-" ++ exprText R ids nm e
+  | .add a b =>
+    if a.isScalar && b.isScalar then scalText R nm (.add a b)
+    else "(" ++ exprText R ids nm a ++ " + " ++ exprText R ids nm b ++ ")"
+  | .sub a b =>
+    if a.isScalar && b.isScalar then scalText R nm (.sub a b)
+    else "(" ++ exprText R ids nm a ++ " + " ++
+      (if b.isScalar then scalText R nm (.neg b) else "-" ++ exprText R ids nm b) ++ ")"
+  | .mul a b =>
+    if a.isScalar && b.isScalar then scalText R nm (.mul a b)
+    else if a.isScalar then "(" ++ exprText R ids nm a ++ " * " ++ exprText R ids nm b ++ ")"
+    else "(" ++ exprText R ids nm b ++ " * " ++ exprText R ids nm a ++ ")"
+
+end names
+
 section stats
 variable {α : Type} [Add α] [Mul α] [Neg α] [Sub α] [Div α] [Zero α] [One α] [Transc α]
 
